@@ -28,13 +28,13 @@ def fn_key(it):
 GUARD_PREFIXES = ("self.",)
 
 
-def nf_function(it, extra_guards=(), int_like=()):
+def nf_function(it, extra_guards=(), int_like=(), inline=None, consts=None):
     """-> ('paths', projected cells) | ('tree', text)"""
     body = it["body"]
-    cuts, lits = mc.char_cuts([body])
+    cuts, lits = mc.char_cuts([body] + [x["body"] for x in (inline or {}).values()])
     has_char_param = any((p.get("ty") or "").replace(" ", "") == "char" for p in it["sig"]["params"] if p.get("name") != "self")
     classes = mc.classes_from_cuts(cuts) if has_char_param else [(0, 0x10FFFF)]
-    cfg = Config(acquire={}, primitives=set(), inline={}, guards=set(extra_guards), samples=[], accessors=set(), full_call_text=True, generic_loops=True)
+    cfg = Config(acquire={}, primitives=set(), inline=dict(inline or {}), guards=set(extra_guards), samples=[], accessors=set(), full_call_text=True, generic_loops=True, consts=consts or {})
     cfg.objects = ("self",)
     try:
         cells = tabulate_generic(it, cfg, classes, has_char_param)
@@ -153,14 +153,31 @@ def select_consts(ast, crate, mods=None):
     return out
 
 
-def area_nf(ast, crate, mods, exclude_names=(), skip_types=()):
-    """-> {key: {'kind': 'paths'|'tree', ...}} JSON-able"""
+def area_nf(ast, crate, mods, exclude_names=(), skip_types=(), known_keys=None):
+    """-> {key: {'kind': 'paths'|'tree', ...}} JSON-able.
+    known_keys: function keys of the reviewed reference.  A private, non-trait function of the area that is not among
+    them and whose name is unique in the crate (a helper extracted by a refactoring) is inlined into its callers (free
+    functions everywhere, methods into methods of the same type called on self) instead of being reported, so the
+    callers are compared with the reference as if the code had not been moved.  It is listed under '_inlined_new'."""
     from .render import render
+    from .flat import scalar_consts, is_scalar_const
+    consts = scalar_consts(ast.crates[crate])
+    from . import render as _render
+    _render.CONSTS = consts
     res = {}
+    new_private = {}
+    if known_keys is not None:
+        counts = {}
+        for it in ast.crates[crate]:
+            if it["k"] == "Fn":
+                counts[it["name"]] = counts.get(it["name"], 0) + 1
+        for it in select(ast, crate, mods, exclude_names):
+            if fn_key(it) not in known_keys and (it.get("vis") or "") == "" and not it.get("trait") and counts.get(it["name"]) == 1 and len(it["name"]) > 3:
+                new_private[it["name"]] = it
     for it in select_consts(ast, crate, mods):
         key = "const %s::%s" % (it["mod"], it["name"])
-        if key in res:
-            continue
+        if key in res or it["name"] in consts:
+            continue  # scalar constants are substituted at their uses instead
         try:
             res[key] = {"kind": "tree", "text": "%s = %s" % ((it.get("ty") or "").replace(" ", ""), render(it["init"])), "why": "constant"}
         except Exception as e:  # noqa
@@ -169,26 +186,36 @@ def area_nf(ast, crate, mods, exclude_names=(), skip_types=()):
         if skip_types and (it.get("self_ty") or "").replace(" ", "").split("<")[0] in skip_types:
             continue
         key = fn_key(it)
+        if it["name"] in new_private and new_private[it["name"]] is it:
+            continue
         n = 2
         base = key
         while key in res:
             key = "%s#%d" % (base, n)
             n += 1
-        r = nf_function(it)
+        st = (it.get("self_ty") or "").replace(" ", "")
+        inl = {nm: x for nm, x in new_private.items() if not x.get("self_ty") or (x.get("self_ty") or "").replace(" ", "") == st}
+        r = nf_function(it, inline=inl, consts=consts)
         if r[0] == "paths":
             res[key] = {"kind": "paths", "cells": mc.to_json({key: r[1]})[key]}
         else:
             res[key] = {"kind": "tree", "text": r[1], "why": r[2]}
+    if new_private:
+        res["_inlined_new"] = {"kind": "note", "names": sorted(fn_key(x) for x in new_private.values())}
     return res
 
 
 def compare_area(ref, new, report_ok, report_bad):
     n = 0
     for key in sorted(set(ref) | set(new)):
+        if key == "_inlined_new":
+            continue
         if key not in new:
             report_bad(key, "function-missing", "reviewed function no longer exists (renamed or removed): re-review needed")
             continue
         if key not in ref:
+            if key.startswith("const "):
+                continue  # a new table is visible at its uses
             report_bad(key, "function-new", "function is not in the reviewed reference")
             continue
         a, b = ref[key], new[key]
